@@ -37,7 +37,8 @@ def setup(ctx):
 WRONG = {"int": 7, "negint": -3, "bool": True, "float": 2.5, "str": "abc", "char": "x", "digits": "12", "hex": "0A1B",
          "empty-str": "", "list-int": [1, 2], "list-float": [1.5, 2.0], "list-str": ["a"], "empty-list": [],
          "dict": {"a": 1}, "nested": [[1], {"b": None}], "tuple": (1, 2), "bytes": b"\x01\x02", "set": {1},
-         "bigint": 2 ** 70, "none-in-list": [None], "bytearray": "BYTEARRAY", "numarray": "NUMARRAY", "object": "OBJECT"}
+         "bigint": 2 ** 70, "none-in-list": [None], "bytearray": "BYTEARRAY", "numarray": "NUMARRAY", "object": "OBJECT",
+         "empty-bytearray": "EMPTYBYTEARRAY", "empty-numarray": "EMPTYNUMARRAY"}
 
 
 def wrong_value(name):
@@ -47,6 +48,10 @@ def wrong_value(name):
         return gfapy.NumericArray([1, 2, 300])
     if name == "object":
         return object()
+    if name == "empty-bytearray":
+        return gfapy.ByteArray([])
+    if name == "empty-numarray":
+        return gfapy.NumericArray([])
     return WRONG[name]
 
 
@@ -95,9 +100,9 @@ def bad_value(rng):
     if k == 1:
         return rng.choice(["inf", "-inf", "nan"]), "float"
     if k == 2:
-        return rng.choice([[1, 2.5], [2 ** 32, 1], [-2 ** 31 - 1], [-1, 2 ** 31], [1, "a"], [None]]), "intarray"
+        return rng.choice([[1, 2.5], [2 ** 32, 1], [-2 ** 31 - 1], [-1, 2 ** 31], [1, "a"], [None], []]), "intarray"
     if k == 3:
-        return rng.choice([[256], [-1], [1, 300]]), "bytes"
+        return rng.choice([[256], [-1], [1, 300], [], []]), "bytes"
     if k == 4:
         # (JSON escapes non-ASCII and control characters: those values are representable;
         #  what J cannot hold is a non-container or a non-serialisable object)
@@ -119,6 +124,8 @@ def materialise(kind, v):
             return gfapy.ByteArray(v)
         except gfapy.Error:
             return None
+    if kind == "intarray" and v == []:
+        return gfapy.NumericArray([])       # (a plain empty list is a JSON value)
     return v
 
 
